@@ -3,6 +3,7 @@ import PydjinniModel.Drv.SysJson
 Driver handlers for property C10.
 
 * `c10.sort` — the two sort pipelines of the templates (`| sort`, `| sort(case_sensitive=true) | sort`) on a list of strings
+* `c10.targets` — the target list of a declaration from its flags as written (order included)
 * `c10.refusal` — configured targets (registry order) and the refusal of an incompletely configured `generate` section
 * `c10.run`  — one API object driven along a history of parse / generate / report calls: per call the files written
                (path, content identity) and whether they equal what a fresh process writes for the same
@@ -108,8 +109,22 @@ def refusalOp (req : Json) : Except String Json := do
       | some (t, g) => Json.mkObj [("target", t.key), ("generator", g.key)]
       | none => Json.null)])
 
+def decodeFlag (s : String) : TFlag :=
+  if s == "+any" then .any
+  else
+    let name := String.ofList (s.toList.drop 1)
+    if s.toList.head? == some '+' then .plus name else .minus name
+
+/-- `c10.targets`: the registry keys and flag lists as written (`["+java", "+cpp"]`, `["-objc"]`, …) → per list the target
+    list of the declaration (`targetsOrKeys`: an empty evaluation means all keys), in order -/
+def targetsOp (req : Json) : Except String Json := do
+  let keys ← getStrs req "keys"
+  let sites ← req.getObjValAs? (Array (Array String)) "sites"
+  pure (Json.mkObj [("targets", Json.arr (sites.map (fun fl => strsJ (targetsOrKeys keys (fl.toList.map decodeFlag)))))])
+
 def handle (op : String) (req : Json) : Except String Json :=
   match op with
+  | "c10.targets" => targetsOp req
   | "c10.sort" => sort req
   | "c10.refusal" => refusalOp req
   | "c10.run" => run req
